@@ -380,9 +380,10 @@ func (c *Ctx) checkExprSemantics(r *Report, rule string) bool {
 	}
 	ip.initPackage(c.ExprS)
 	type outcome struct {
-		m    map[string]string
-		err  bool
-		what string // "" | "ood: …" | "run-time panic: …"
+		m      map[string]string
+		err    bool
+		errLen int    // length of the error text, where the model could compute it
+		what   string // "" | "ood: …" | "run-time panic: …"
 	}
 	run := func(in string) outcome {
 		ip.Steps = 0
@@ -398,6 +399,11 @@ func (c *Ctx) checkExprSemantics(r *Report, rule string) bool {
 			return outcome{what: "ood: result " + avString(res)}
 		}
 		o := outcome{err: !isNilAV(tv[1])}
+		if iv, ok := tv[1].(*IfaceV); ok {
+			if sym, ok := iv.V.(*Sym); ok {
+				o.errLen = sym.N
+			}
+		}
 		if mv, ok := tv[0].(*MapV); ok {
 			o.m = map[string]string{}
 			for _, k := range mv.Keys {
@@ -587,6 +593,27 @@ func (c *Ctx) checkExprSemantics(r *Report, rule string) bool {
 				fail("after 120 malformed inputs that fail inside nested expressions, Parse(%q) = (%s, error=%v) %s, want %s as before", in, show(o.m), o.err, o.what, show(want))
 			}
 		}
+	}
+	// resources: an input of n characters the lexer rejects one by one must not cost more than linearly in n — measured on
+	// the text of the returned error, which (quoting the input once per recorded error and wrapping the errors before it)
+	// is where a quadratic or cubic blow-up shows: 64 KiB of such input would otherwise not finish
+	if nBad == 0 {
+		lens := map[int]int{}
+		for _, n := range []int{50, 100, 200} {
+			o := run("T{a=" + strings.Repeat("@", n) + "}")
+			if strings.HasPrefix(o.what, "ood") {
+				r.Inconclusive(key, "%s (input of %d rejected characters)", o.what, n)
+				return false
+			}
+			if o.what != "" || !o.err || o.m != nil {
+				fail("Parse of %d rejected characters = (%s, error=%v) %s, want (nil, error)", n, show(o.m), o.err, o.what)
+			}
+			lens[n] = o.errLen
+		}
+		if lens[100] > 0 && lens[200] > 0 && lens[200] > 3*lens[100] {
+			fail("the error text for 50 / 100 / 200 rejected characters is %d / %d / %d bytes long: it grows faster than the input (every error quotes the whole input and wraps the errors before it), so time and memory are at least quadratic in the input size and a 64 KiB input does not finish", lens[50], lens[100], lens[200])
+		}
+		r.Count("expr_error_text_bytes_200", lens[200])
 	}
 	r.Count("expr_history_evaluations", nHist)
 	r.Count("expr_evaluations", nGood+nMal+3)
